@@ -189,7 +189,12 @@ example :
 
 /-! ## line total -/
 
-/-- the file's line total is the sum of its function lengths -/
+/-- the file's line total is the sum of its function lengths.
+(Definitional at this level: `analyze` computes the total by folding `+` over the lengths, as
+`_analyze_file` does with `sum(m.value for m in measurements)`; the theorem only restates the fold
+as `List.sum`.  That the code computes THAT number is the correspondence tie; that the report's
+`loc` field and the totals / profiles built from it agree with the measurements is
+`Pipe.report_measurements_wf` (last conjunct), `Pipe.report_file_profiles`, `Pipe.report_totals`.) -/
 theorem total_is_sum (L : Language) (code : Str) (raw : List RawTok) (ms : List Measurement)
     (n : Nat) (h : analyze L code raw = .ok (ms, n)) : n = (ms.map (·.len)).sum := by
   unfold analyze at h
@@ -368,8 +373,20 @@ example : ([⟨[102], 1, 1, 2, 2, 2⟩, ⟨[103], 3, 1, 4, 2, 2⟩] : List Measu
   source_order Gen.javascript (by simp [Gen.all]) jsToks _ (by decide +kernel)
     (scanFile_eval (by decide +kernel))
 
-/-- the line total of a two-function file -/
-example : ([⟨[102], 1, 5, 2, 2, 2⟩, ⟨[103], 3, 5, 4, 2, 2⟩] : List Measurement).map (·.len) = [2, 2] :=
-  rfl
+/-- an instance of `total_is_sum`: the C text `f(){\n}\ng(){\n}` with its raw tokens is analysed
+to two functions of 2 lines each, total 4 -/
+example :
+    let code : Str := [102, 40, 41, 123, 10, 125, 10, 103, 40, 41, 123, 10, 125]
+    let raw : List RawTok :=
+      [⟨0, 2, 2, [102]⟩, ⟨1, 3, 3, [40]⟩, ⟨2, 3, 3, [41]⟩, ⟨3, 3, 3, [123]⟩, ⟨4, 6, 6, [10]⟩, ⟨5, 3, 3, [125]⟩,
+       ⟨6, 6, 6, [10]⟩, ⟨7, 2, 2, [103]⟩, ⟨8, 3, 3, [40]⟩, ⟨9, 3, 3, [41]⟩, ⟨10, 3, 3, [123]⟩, ⟨11, 6, 6, [10]⟩,
+       ⟨12, 3, 3, [125]⟩]
+    ∃ ms n, analyze Gen.c code raw = .ok (ms, n) ∧ ms.map (·.len) = [2, 2] ∧ n = 4 := by
+  intro code raw
+  have h : analyze Gen.c code raw = .ok ([⟨[102], 1, 1, 2, 2, 2⟩, ⟨[103], 3, 1, 4, 2, 2⟩], 4) := by
+    unfold analyze
+    rw [scanFile_eval (ms := [⟨[102], 1, 1, 2, 2, 2⟩, ⟨[103], 3, 1, 4, 2, 2⟩]) (by decide +kernel)]
+    rfl
+  exact ⟨_, _, h, rfl, total_is_sum _ _ _ _ _ h ▸ rfl⟩
 
 end CL.C05
